@@ -125,7 +125,8 @@ int32_t pkcs1UnpadExt(const unsigned char *in,
 {
     const unsigned char *c, *end;
 
-    if (verifyUnpaddedLen && inlen < outlen + 10)
+    /* 00 || BT || PS || 00 || D with at least 8 octets of PS */
+    if (verifyUnpaddedLen && inlen < outlen + 11)
     {
         psTraceCrypto("pkcs1Unpad failure\n");
         return PS_ARG_FAIL;
@@ -153,6 +154,12 @@ int32_t pkcs1UnpadExt(const unsigned char *in,
             }
         }
         c++;
+    }
+    if (c - (in + 2) < 8)
+    {
+        /* RFC 8017 7.2.2 / 9.2: the padding string is at least 8 octets */
+        psTraceCrypto("pkcs1Unpad padding too short\n");
+        return PS_FAILURE;
     }
     c++;
 
